@@ -394,7 +394,7 @@ def check(rep, args, prefix, emphasis):
                         clause,
                         sig_of(clause, all_scheds[i]),
                         "clause %s false at event %d of a recorded execution (%d events); consts %s"
-                        % (clause, v["firstBad"], len(ev), consts),
+                        % (clause, v["at"][clause], len(ev), consts),
                         {"schedule": all_scheds[i], "events": ev, "consts": consts, "meta": results[i]["meta"]},
                     )
                 meta = results[i]["meta"]
